@@ -16,8 +16,10 @@ typedef struct { void* scope; void* first_node; int live; uint8_t* blk[8]; size_
 typedef struct { S sc[MAXS]; size_t ns; char* ev; size_t evn, evcap; int tid; } T;
 static __thread T* me;
 
+static int main_exit_mode;                /* C02_MAIN_THREAD: main() has returned, events go straight to stdout */
 static void ev_add(const char* fmt, unsigned long v)
 {
+    if (main_exit_mode) { printf(fmt, v); putchar(' '); return; }
     if (!me) return;
     char b[32]; int n = snprintf(b, sizeof b, fmt, v);
     if (me->evn + (size_t)n + 2 > me->evcap) { me->evcap = (me->evcap + n + 2) * 2; me->ev = realloc(me->ev, me->evcap); }
@@ -117,7 +119,9 @@ int main(void)
         const GPAllocator* l = gp_last_scope((const GPAllocator*)&fb);
         strcpy(fresh_out, l == (const GPAllocator*)&fb ? "fallback" : "GARBAGE");
     }
-    gp_heap = &hooked;
+#ifndef NDEBUG
+    gp_heap = &hooked;      /* a release build makes gp_heap constant: no release events there */
+#endif
     while (vp_next()) {
         nlines = 0;
         do {
@@ -125,6 +129,17 @@ int main(void)
             char joined[128] = ""; for (int i = 0; i < vp_ntok; i++) { strncat(joined, vp_tok[i], 30); strcat(joined, " "); }
             if (nlines < MAXL) { ltid[nlines] = vp_ntok > 1 ? atoi(vp_tok[1]) : 0; outs[nlines] = NULL; lines[nlines++] = strdup(joined); }
         } while (vp_next());
+#ifdef C02_MAIN_THREAD
+        {   /* the script of thread 0 runs on the MAIN thread; `exit` = return from main() with the scopes still live:
+               what the library registered for process exit has to end them (deferred calls run, LIFO, once) */
+            T* t = calloc(1, sizeof(T)); t->tid = 0;
+            size_t li = (size_t)(uintptr_t)run_thread(t);
+            for (size_t i = 0; i < (li ? li - 1 : nlines); i++) puts(outs[i] ? outs[i] : "no-output");
+            fflush(stdout);
+            if (li) main_exit_mode = 1;
+            return 0;
+        }
+#endif
         int used[MAXT] = {0};
         for (size_t i = 0; i < nlines; i++) if (ltid[i] >= 0 && ltid[i] < MAXT) used[ltid[i]] = 1;
         pthread_t th[MAXT]; T* ts[MAXT] = {0};
